@@ -171,9 +171,18 @@ def run(ctx):
     for tmpl in ['int f(int n,int x){ int i; for (i = 0; i < n; i++) { n = n + x; } }',
                  'int f(int n,int x){ int i; for (i = 0; i < n; i++) { x = x + n; } }',
                  'int f(int n,int x){ int i; for (i = 0; i < n; i++) { if (x < 1) { n = x; } } }',
-                 'int f(int n,int x){ int i; for (i = 0; i < n; i++) { while (x < 2) { n++; } } }']:
+                 'int f(int n,int x){ int i; for (i = 0; i < n; i++) { while (x < 2) { n++; } } }',
+                 # ... wherever in the body the write sits: else block, end of an else-if chain, nested block, do body,
+                 # inner counted loop, behind a label, as the step of an inner for
+                 'int f(int n,int x,int y){ int i; for (i = 0; i < n; i++) { if (x < 1) { x = x + y; } else { n = n + y; } } }',
+                 'int f(int n,int x,int y){ int i; for (i = 0; i < n; i++) { if (x < 1) { x = y; } else if (y < 1) { y = x; } else { n = x; } } }',
+                 'int f(int n,int x){ int i; for (i = 0; i < n; i++) { { x = x + x; { n = x; } } } }',
+                 'int f(int n,int x){ int i; for (i = 0; i < n; i++) { do { n = n + x; } while (x < 2); } }',
+                 'int f(int n,int x,int m){ int i; int j; for (i = 0; i < n; i++) { for (j = 0; j < m; j++) { n = x; } } }',
+                 'int f(int n,int x){ int i; for (i = 0; i < n; i++) { L1: n = x + x; } }',
+                 'int f(int n,int x){ int i; for (i = 0; i < n; i++) { if (x < 1) x = x + 1; else n = x; } }']:
         ast = astwire.parse(tmpl)
-        loop = astwire.funcs(ast)[0].body.block_items[1]
+        loop = next(b for b in astwire.funcs(ast)[0].body.block_items if type(b).__name__ == 'For')
         comp, xv = Coverage.loop_compat(loop)
         ctx.case(tmpl, nontrivial=True)
         if comp:
